@@ -535,6 +535,19 @@ func (g *FnGen) havocLoc(env *Env, loc Expr) {
 			if st.Field(i).Name() == l.Name || l.Name == "$all" {
 				fam, sort, ft := g.fieldFam(p.Elem(), i)
 				h := g.heapGet(g.cur, fam, sort)
+				if mt, isMap := ft.Underlying().(*types.Map); isMap && l.Name != "$all" {
+					// p.f of map type names the field AND the contents of the map it holds at the call
+					mv := fmt.Sprintf("(select %s %s)", h, x.T)
+					pf, ps, vf, vs := g.mapFams2(mt)
+					lf, ls := g.mapLenFam(mt)
+					for _, fs := range [][2]string{{pf, ps}, {vf, vs}, {lf, ls}} {
+						hh := g.heapGet(g.cur, fs[0], fs[1])
+						inner := strings.TrimSuffix(strings.TrimPrefix(fs[1], "(Array Int "), ")")
+						row := g.fresh("row", inner)
+						g.loopFrameCheck(fs[0], mv, token.NoPos)
+						g.heapSet(g.cur, fs[0], fmt.Sprintf("(store %s %s %s)", hh, mv, row))
+					}
+				}
 				nv := g.unknownOf("hv", ft)
 				g.loopFrameCheck(fam, x.T, token.NoPos)
 				g.heapSet(g.cur, fam, fmt.Sprintf("(store %s %s %s)", h, x.T, nv.T))
@@ -905,8 +918,11 @@ func (g *FnGen) calleeFrameInclusion(env *Env, loc Expr, name string, pos token.
 		}
 		for i := 0; i < st.NumFields(); i++ {
 			if st.Field(i).Name() == l.Name {
-				fam, _, _ := g.fieldFam(p.Elem(), i)
+				fam, _, ft := g.fieldFam(p.Elem(), i)
 				covered(&Addr{Fam: fam, Ref: x.T}, "")
+				if _, isMap := ft.Underlying().(*types.Map); isMap {
+					g.calleeMapInclusion(env.tr(loc), name+"/contents", loc, pos)
+				}
 				return
 			}
 		}
@@ -1014,7 +1030,7 @@ func (g *FnGen) calleeMapInclusion(m Val, name string, loc Expr, pos token.Pos) 
 				}
 			}
 			v := own.tr(e)
-			if _, ok := typeUnder(v.GT).(*types.Map); ok {
+			if _, ok := typeUnder(v.GT).(*types.Map); ok && v.S == "Int" {
 				alts = append(alts, fmt.Sprintf("(= %s %s)", v.T, m.T))
 			}
 		}()
